@@ -842,6 +842,27 @@ impl FailSafe {
     }
 }
 
+#[cfg(feature = "verif")]
+impl FailSafe {
+    /// Verification hook: `(fab_idx, flag bits, timeout_secs, armed_at in ms)` of the armed context.
+    pub fn verif_armed(&self) -> Option<(u8, u8, u16, u64)> {
+        match &self.state {
+            State::Idle => None,
+            State::Armed(ctx) => Some((
+                ctx.fab_idx,
+                ctx.flags.bits(),
+                ctx.timeout_secs,
+                ctx.armed_at.as_millis(),
+            )),
+        }
+    }
+
+    /// Verification hook: the CSR secret key currently staged in the fail-safe context.
+    pub fn verif_secret_key(&self) -> CanonPkcSecretKeyRef<'_> {
+        self.secret_key.reference()
+    }
+}
+
 impl Default for FailSafe {
     fn default() -> Self {
         Self::new()
